@@ -105,8 +105,17 @@ def _split_lines(region_str):
     lines : list of str
         A list of strings.
     """
-    return [line_.strip() for line in region_str.split('\n')
-            for line_ in _split_semicolon(line)]
+    lines = []
+    for line in region_str.split('\n'):
+        line = line.strip()
+        if (line.startswith('#')
+                and not line.startswith(('# text(', '# composite('))):
+            # a comment extends to the end of the line, including any
+            # semicolons
+            lines.append(line)
+        else:
+            lines.extend(line_.strip() for line_ in _split_semicolon(line))
+    return lines
 
 
 def _parse_raw_data(region_str):
